@@ -4,6 +4,7 @@
    parameter occurs in them - and the facts of the source the argument needs
    (clamp expression, cache distance threshold) are regenerated from yaep.c. *)
 From YV Require Import Prelude EarleySpec Recognizer Viable Lookahead Translate Dag Generated GeneratedChecks CacheModel.
+From Coq Require Import String.
 Local Open Scope Z_scope.
 
 Theorem C09_level_clamped : forall l, setter_store_0 l = Z.max 0 (Z.min 2 l).
@@ -66,3 +67,12 @@ Theorem C09_cache_reuse_is_sound : forall after adv lhs empty_tail keep fuel pl 
   build after adv lhs empty_tail keep fuel pl' k' a = Some R.
 Proof. exact cache_sound_src. Qed.
 Print Assumptions C09_cache_reuse_is_sound.
+
+(* the facts of the source the two theorems above rest on: both lookahead filters of build_new_set test
+   the next token and exempt situations that `error' can follow; the places compared by the validity test
+   of the cache and the place the completer looks at are k + 1 - distance *)
+Theorem C09_source_filters_and_places :
+  (la_filter_scan = la_filter_complete /\ In "grammar->term_error_num"%string la_filter_scan /\ In "lookahead_term_num"%string la_filter_scan) /\
+  (forall k p d, cache_index_now k p d = (k + 1 - d)%Z /\ cache_index_then k p d = (p + 1 - d)%Z /\ completion_place k d = (k + 1 - d)%Z).
+Proof. split; [exact la_filters_same | exact cache_indexes_ok]. Qed.
+Print Assumptions C09_source_filters_and_places.
